@@ -144,7 +144,9 @@ threshold!(c05_slice_plain_named, Named, Framing::Plain, 9, 27);
 threshold!(c05_slice_plain_u64, u64, Framing::Plain, 10, 27);
 //@ tier=thorough class=core cap=900 bounds="all E4 values x capacity 0..=len+2; plain"
 threshold!(c05_slice_plain_enum4, E4, Framing::Plain, 12, 27);
-//@ tier=quick class=core cap=900 bounds="all Named values x capacity 0..=len+2; COBS (vs reference COBS)"
+//@ tier=quick class=core cap=900 bounds="all u32 values x capacity 0..=len+2; COBS (vs reference COBS)"
+threshold!(c05_slice_cobs_u32, u32, Framing::Cobs, 5, 27);
+//@ tier=thorough class=core cap=2400 bounds="all Named values x capacity 0..=len+2; COBS (vs reference COBS)"
 threshold!(c05_slice_cobs_named, Named, Framing::Cobs, 9, 27);
 //@ tier=thorough class=core cap=900 bounds="all u64 values x capacity; COBS"
 threshold!(c05_slice_cobs_u64, u64, Framing::Cobs, 10, 27);
@@ -250,6 +252,24 @@ fn c05_hvec_cobs_u32() {
     let n = reference.len();
     hvec_caps!(&v, n, reference, to_vec_cobs, 2usize, [0, 1, 2, 3, 4, 5, 6, 7, 8]);
     kani::cover!(n == 5, "longest encoding reachable");
+}
+
+#[kani::proof]
+#[kani::unwind(8)]
+//@ tier=quick class=core cap=900 bounds="every (u8, byte array 0..=2) value x heapless::Vec<u8,C> for every C in 0..=5 (incl. an EMPTY trailing block at exactly-full capacity)"
+fn c05_hvec_plain_bytes() {
+    #[derive(Serialize)]
+    struct B<'a>(u8, #[serde(with = "crate::types::bytes_as_bytes")] &'a [u8]);
+    let store: [u8; 2] = kani::any();
+    let l: usize = kani::any();
+    kani::assume(l <= 2);
+    let v = B(kani::any(), &store[..l]);
+    let mut big = [0u8; 8];
+    let reference = postcard::to_slice(&v, &mut big).unwrap();
+    let n = reference.len();
+    hvec_caps!(&v, n, reference, to_vec, 0usize, [0, 1, 2, 3, 4, 5]);
+    kani::cover!(l == 0, "empty trailing block reachable");
+    kani::cover!(n == 4, "longest encoding reachable");
 }
 
 #[kani::proof]
